@@ -321,6 +321,12 @@ def gen_cases(rng, tier):
     for _ in range(ncomm):
         c = gen_committee(rng)
         cj = M.committee_json(c)
+        # leader eligibility is irrelevant for certificates (thresholds are functions of the TOTAL weight):
+        # mark a random subset non-eligible, keeping at least one leader; only the implementation sees the flag
+        flags = [1 if rng.chance(2, 3) else 0 for _ in cj]
+        if not any(flags):
+            flags[0] = 1
+        cj = [e + [fl] for e, fl in zip(cj, flags)]
         pids = list(range(0, 12))
         base = {"g": G, "e": str(E), "committee": cj, "payload_ids": pids}
         # commit certificates
